@@ -55,6 +55,25 @@ class Summary:
         self.unknown_muts: Set[tuple] = set()
 
 
+def _shared_default(d) -> bool:
+    """a default argument value is evaluated ONCE, when the function is defined: a container display / comprehension, the result of
+    any call that can build an object (`DEFAULT.copy()`, `dict()`, `Factory()`), or a module-level object handed on by name is one
+    object shared by all calls that leave the argument out"""
+    if d is None or isinstance(d, ast.Constant):
+        return False
+    if isinstance(d, ast.Tuple):
+        return any(_shared_default(x) for x in d.elts)
+    if isinstance(d, (ast.Dict, ast.List, ast.Set, ast.ListComp, ast.SetComp, ast.DictComp)):
+        return True
+    if isinstance(d, ast.Call):
+        f_ = d.func
+        nm = f_.id if isinstance(f_, ast.Name) else (f_.attr if isinstance(f_, ast.Attribute) else "")
+        return nm not in ("float", "int", "str", "bool", "frozenset", "tuple", "bytes", "getLogger", "compile", "Path")
+    if isinstance(d, (ast.UnaryOp, ast.BinOp, ast.Compare, ast.JoinedStr, ast.Lambda)):
+        return False
+    return False
+
+
 class Effects:
     def __init__(self, repo: Repo):
         self.repo = repo
@@ -665,8 +684,7 @@ class _Analyzer:
                     base = bind.get(nm)
                     if base is None:
                         d = callee.defaults.get(nm)
-                        if isinstance(d, (ast.Dict, ast.List, ast.Set)) or (isinstance(d, ast.Call) and isinstance(d.func, ast.Name)
-                                                                            and d.func.id in ("dict", "list", "set")):
+                        if _shared_default(d):
                             res.add((("global", f"<mutable default {callee.qn}:{nm}>"), p))
                         continue
                     cur = base
